@@ -626,6 +626,8 @@ EXTRA_FILES = {
     "C16": ["Kanal/TieProto.lean"],            # poll, will_wake, register_waker, the constructors (a signal starts LOCKED)
     "C15": ["Kanal/TieProto.lean"],            # async_blocking_wait in Drop
     "C14": ["Kanal/Props/C14Fine.lean"],
+    "C04": ["Kanal/TiePtr.lean"],              # pointer.rs translated: its operation lists compute PtrM's functions for every size, memory and word
+    "C05": ["Kanal/TiePtr.lean"],              # … and a value passed by value is consumed exactly once (moved or bit-copied + forgotten)
     "C02": ["Kanal/Props/RealTime.lean"],      # real-time readings over executions: acceptance order in time, later value never taken first, drain order
     "C08": ["Kanal/Props/RealTime.lean"],      # at every instant of an execution: accepted-and-unblocked minus delivered <= n; rendezvous
     "C10": ["Kanal/Props/RealTime.lean"],      # after close has returned: nothing delivered, every later call answers closed       # realtime variants on the translated code: one tryLock, busy => not done, never waits   # interleaving machine: the logical state moves by whole critical sections = Chan functions
